@@ -16,6 +16,7 @@ import (
 	"strings"
 	"time"
 
+	"github.com/vapourismo/knx-go/knx"
 	"github.com/vapourismo/knx-go/knx/cemi"
 	"github.com/vapourismo/knx-go/knx/knxnet"
 	"github.com/vapourismo/knx-go/knx/util"
@@ -1034,6 +1035,135 @@ func wantOf(group bool, text string) int {
 	return -1
 }
 
+// ---- C12: group events <-> L_Data frames ----
+
+func (r *run) c12(g *gen.G, budget int) {
+	cmds := []int{0, 1, 2, 0, 1, 2, 3, 4, 15, 255}
+	lens := []int{0, 1, 2, 3, 14, 15, 16, 17, 100, 254}
+	// outbound: the frame buildGroupOutbound constructs, then through the real encoder and decoder,
+	// then through the real inbound filter (end to end)
+	in := make(chan cemi.Message)
+	out := make(chan knx.GroupEvent, 1)
+	go knx.VerifServeGroupInbound(in, out)
+	sentinel := &cemi.LDataInd{LData: knx.VerifBuildGroupOutbound(knx.GroupEvent{Command: knx.GroupWrite, Destination: 0xffff, Data: []byte{0x3f}})}
+	// filterOne pushes one message through the real serveGroupInbound
+	filterOne := func(m cemi.Message) (knx.GroupEvent, bool) {
+		in <- m
+		in <- sentinel
+		ev := <-out
+		if ev.Destination == 0xffff && len(ev.Data) == 1 && ev.Data[0] == 0x3f && ev.Source == 0 {
+			return knx.GroupEvent{}, false
+		}
+		<-out // the sentinel
+		return ev, true
+	}
+	for r.nOps < budget/2 {
+		ev := knx.GroupEvent{
+			Command:     knx.GroupCommand(cmds[g.R.Intn(len(cmds))]),
+			Source:      cemi.IndividualAddr(g.Word()),
+			Destination: cemi.GroupAddr(g.Word()),
+		}
+		if ev.Destination == 0xffff {
+			ev.Destination = 0xfffe
+		}
+		n := lens[g.R.Intn(len(lens))]
+		if n > 0 {
+			ev.Data = g.Bytes(n)
+		}
+		ld := knx.VerifBuildGroupOutbound(ev)
+		op := fmt.Sprintf("gout %d %d %d %s", uint8(ev.Command), uint16(ev.Source), uint16(ev.Destination), ktext.Hex(ev.Data))
+		r.distinct[op] = true
+		r.emit(op, ktext.Join(ktext.LData(&ld)))
+		// the documented shape of the frame
+		app, isApp := ld.Data.(*cemi.AppData)
+		c2 := uint8(ld.Control2)
+		c1 := uint8(ld.Control1)
+		switch {
+		case !isApp || uint8(app.Command) != uint8(ev.Command) || !bytes.Equal(app.Data, ev.Data):
+			r.violation("outbound-payload", op, "frame "+ktext.Join(ktext.LData(&ld)))
+		case c2>>7 != 1 || (c2>>4)&7 != 6:
+			r.violation("outbound-control2", op, fmt.Sprintf("control field 2 = %#x: want group flag and hop count 6", c2))
+		case (c1>>2)&3 != 3:
+			r.violation("outbound-priority", op, fmt.Sprintf("control field 1 = %#x: want low priority", c1))
+		case (c1>>7 == 1) != (len(ev.Data) <= 15):
+			r.violation("outbound-frame-format", op, fmt.Sprintf("control field 1 = %#x with %d payload bytes", c1, len(ev.Data)))
+		case ld.Destination != uint16(ev.Destination) || ld.Source != ev.Source:
+			r.violation("outbound-address", op, "")
+		}
+		// end to end: encode as L_Data.ind inside a routing indication, decode, filter
+		frame, msg := packFrame(&knxnet.RoutingInd{Payload: &cemi.LDataInd{LData: ld}})
+		if frame == nil {
+			r.violation("outbound-encode-panics", op, msg)
+			continue
+		}
+		var svc knxnet.Service
+		if _, err := knxnet.Unpack(frame, &svc); err != nil {
+			r.violation("outbound-not-decodable", op, err.Error())
+			continue
+		}
+		got, ok := filterOne(svc.(*knxnet.RoutingInd).Payload)
+		wantData := append([]byte(nil), ev.Data...)
+		if len(wantData) == 0 {
+			wantData = []byte{0}
+		}
+		wantData[0] &= 63
+		isGroupCmd := uint8(ev.Command) < 3
+		switch {
+		case isGroupCmd && !ok:
+			r.violation("event-lost", op, "the event did not surface at the receiving client")
+		case !isGroupCmd && uint8(ev.Command) <= 15 && ok:
+			r.violation("non-group-command-surfaced", op, fmt.Sprintf("command %d surfaced", uint8(got.Command)))
+		case isGroupCmd && (got.Command != ev.Command || got.Source != ev.Source || got.Destination != ev.Destination || !bytes.Equal(got.Data, wantData)):
+			r.violation("event-changed", op, fmt.Sprintf("received command %d source %d destination %d data %s", got.Command, got.Source, got.Destination, ktext.Hex(got.Data)))
+		}
+	}
+	// inbound: all message kinds x both address types x 16 APCI x control/data units
+	for r.nOps < budget {
+		m := g.Cemi(-1)
+		if g.R.Intn(2) == 0 {
+			l := g.LData()
+			if g.R.Intn(2) == 0 {
+				l.Control2 |= cemi.Control2GroupAddr
+			}
+			if a, ok := l.Data.(*cemi.AppData); ok && g.R.Intn(2) == 0 {
+				a.Command = cemi.APCI(g.R.Intn(3))
+			}
+			m = &cemi.LDataInd{LData: l}
+		}
+		op := "gin " + ktext.Join(ktext.Cemi(m))
+		r.distinct[op] = true
+		ev, ok := filterOne(m)
+		outS := "none"
+		if ok {
+			outS = fmt.Sprintf("ev %d %d %d %s", uint8(ev.Command), uint16(ev.Source), uint16(ev.Destination), ktext.Hex(ev.Data))
+		}
+		r.emit(op, outS)
+		// the documented rule, written independently
+		want := false
+		var wl *cemi.LData
+		if ind, isInd := m.(*cemi.LDataInd); isInd {
+			if uint8(ind.Control2)>>7 == 1 {
+				if a, isApp := ind.Data.(*cemi.AppData); isApp && uint8(a.Command) < 3 {
+					want, wl = true, &ind.LData
+				}
+			}
+		}
+		switch {
+		case want != ok:
+			r.violation("inbound-filter", op, fmt.Sprintf("surfaced=%v, the rule says %v", ok, want))
+		case ok:
+			a := wl.Data.(*cemi.AppData)
+			if uint8(ev.Command) != uint8(a.Command) || ev.Source != wl.Source || uint16(ev.Destination) != wl.Destination || !bytes.Equal(ev.Data, a.Data) {
+				r.violation("inbound-event-fields", op, outS)
+			}
+		}
+	}
+	close(in)
+	if _, open := <-out; open {
+		r.violation("group-channel-not-closed", "close(in)", "the group Inbound channel stayed open after the client's closed")
+	}
+}
+
 func main() {
 	prop := flag.String("prop", "", "C01 | C02 | C15")
 	seed := flag.Int64("seed", 1, "PRNG seed")
@@ -1064,6 +1194,8 @@ func main() {
 		r.c11h(g, *budget)
 	case "C18":
 		r.c18(g, *budget)
+	case "C12":
+		r.c12(g, *budget)
 	default:
 		fmt.Fprintln(os.Stderr, "unknown -prop")
 		os.Exit(2)
